@@ -426,6 +426,10 @@ type ctx struct {
 	judged   int // split calls of real Decoders held against the contract
 	sessions int
 	recent   []string // the last session lines (state left behind by a session may matter to the next)
+	// nesting depth reached by the real decoder over the whole run (nest.go)
+	byDepth       bool
+	maxSpanDepth  int
+	maxQuoteDepth uint
 }
 
 func decLine(doc []byte, got []int, s sched) string {
@@ -534,6 +538,17 @@ func (c *ctx) doc(doc []byte, scheds []sched, modelLines int, class string) {
 	nontriv := false
 	for _, e := range ref.evs {
 		nontriv = nontriv || e.style != 0
+	}
+	if sp, q := depthClass(ref.evs); sp > c.maxSpanDepth || q > c.maxQuoteDepth {
+		if sp > c.maxSpanDepth {
+			c.maxSpanDepth = sp
+		}
+		if q > c.maxQuoteDepth {
+			c.maxQuoteDepth = q
+		}
+	}
+	if c.byDepth {
+		class += depthSuffix(ref.evs)
 	}
 	r.Case("doc "+hd, nontriv, class)
 	refObs := ref.obs()
@@ -716,6 +731,7 @@ var corpus = []string{
 	"> a\n```info\nx\n", ">> a\nb\n", "``` `a`\n", "``` *a*", "```\n```\nx", "> ```\n> ```abc\n> x", "~a~~b~\n",
 	"\ufeff", "\ufeff> a\n", "\ufeff```\ncode\n```\n", "\ufeff*a*\n", "\ufeffa", "\xef\xbb", "\xef", "\xef\xbb> a", "\xef> a",
 	"\ufeff\ufeff> x", "a\ufeff> b\n", "> \ufeff> b\n", "\xef\xbb\xbe> a", "\uff01> a\n", "\u200b> a\n", "\u2060*a*\n", "\u200d```\n", "\n\ufeff> a\n",
+	"*_~`x`~_*", "> *a _b ~c `d` e~ f_ g* h\nplain *strong*\n", "~_*`x`*_~\n", "*_~`x`~_", ">>>> *_a_*\n> b\nc\n", ">> ```\n>> x\n> y\n",
 	">\u00a0x", ">\u3000\u3000", "> \xe3\x80", "*a _b *c* d_ e*\n", "_a *b* c_ *d*\n", "`a` `b`\n", "`*a*`*b*\n",
 }
 
@@ -876,6 +892,9 @@ func Run(r *common.Run) error {
 	// SkipSpan/SkipBlock (session.go)
 	c.sessions_()
 
+	// 1c. nesting depth: documents generated from the grammar (nest.go)
+	c.nests()
+
 	// 2. small scope, exhaustive: every document up to length L over the directive alphabet
 	// under every way of cutting it into reads, with and without EOF on the last read
 	maxLen := r.Pick(4, 6)
@@ -989,6 +1008,8 @@ func Run(r *common.Run) error {
 		r.Notes = append(r.Notes, "a decode hung; the run was cut short")
 	}
 	r.Extra["decoder_split_calls_judged"] = c.judged
+	r.Extra["max_span_depth"] = c.maxSpanDepth
+	r.Extra["max_quote_depth"] = c.maxQuoteDepth
 	if c.unhooked > 0 {
 		r.Notes = append(r.Notes, fmt.Sprintf("%d decodes: the Decoder's scanner could not be hooked (layout changed); its split calls were not judged, only the returned tokens", c.unhooked))
 	}
@@ -1182,6 +1203,12 @@ func Facts(repo string) (string, error) {
 		fmt.Fprintf(&sb, "def sharedState : Option (List String) := some [%s]\n", strings.Join(q, ", "))
 	} else {
 		sb.WriteString("def sharedState : Option (List String) := none\n")
+	}
+	sb.WriteString("\n/-- nesting depth, probed: for every sequence of span kinds of length 1..4 over * _ ~ ` (in\nlexicographic order, shortest first) the real decoder is run on the spans opened one inside the\nother around \"x\" and closed again; the entry is the largest number of span styles that were on at\nonce in a returned style.  `none` = a decoding panicked, hung or did not reach the end -/\n")
+	if depths, ok := nestProbe(); ok {
+		fmt.Fprintf(&sb, "def nestProbe : Option (List Nat) := some [%s]\n", ints(depths))
+	} else {
+		sb.WriteString("def nestProbe : Option (List Nat) := none\n")
 	}
 	sb.WriteString("\nend XmppModel.Generated.C17\n")
 	return sb.String(), nil
